@@ -146,4 +146,14 @@ Proof.
     unfold send_ok. cbn. intros _ B. apply M3, B.
 Qed.
 
+(* nothing goes out while the windows are closed and read bytes are waiting *)
+Lemma send_data_stalled c s : st_pending s <> [] -> (zmin (st_window s) (sc_clientWindow c) <= 0)%Z ->
+  snd (send_data c s) = false.
+Proof.
+  intros NE Wd. unfold send_data. destruct (send_data_fuel (get_snd s)) as [|fuel]; [reflexivity|].
+  cbn [send_data_loop]. change (sn_pending (get_snd s)) with (st_pending s). destruct (st_pending s) as [|p0 pt] eqn:EP; [congruence|].
+  cbv zeta. change (sn_window (get_snd s)) with (st_window s).
+  replace (zmin (st_window s) (sc_clientWindow c) <=? 0)%Z with true by (symmetry; apply Z.leb_le; exact Wd). reflexivity.
+Qed.
+
 End Send.
